@@ -2,6 +2,8 @@ import TdVerif.Sexp
 import TdVerif.Model.C11Consolidate
 import TdVerif.Model.C11Pytree
 import TdVerif.Model.C11Rebuild
+import TdVerif.Model.C11StateDict
+import TdVerif.Model.C11ToDict
 
 namespace TdVerif.Drive
 open TdVerif Sexp TdVerif.C11
@@ -109,6 +111,14 @@ def itemSx : Item Nat → Sexp
 def tagSx : Tag → Sexp
   | .plain => .atom "plain" | .values => .atom "values" | .lengths => .atom "lengths" | .offsets => .atom "offsets"
 
+partial def pdSx : PD → Sexp
+  | .leaf v => .list [.atom "l", ofNat v]
+  | .dict es => .list (.atom "d" :: es.map fun (k, t) => .list [.atom k, pdSx t])
+
+partial def sdSx : SD → Sexp
+  | .leaf v => .list [.atom "l", ofNat v]
+  | .dict b d es => .list (.atom "d" :: ofNats b :: devSx d :: es.map fun (k, t) => .list [.atom k, sdSx t])
+
 end C11D
 open C11D
 
@@ -170,6 +180,17 @@ def handleC11 (cmd : String) (args : List Sexp) : Option Sexp :=
         | none => Sexp.atom "none"
       pure (.list [.list (flat.map fun (t, k, v) => .list [tagSx t, .atom k, ofNat v]),
         out (rebuildLoop none none flat), out (rebuildLoopNoReset none none flat)])
+  -- (c11.statedict tree dest) -> (state-dict, dest after load_state_dict | none)
+  | "c11.statedict", [t, dest] => do
+      let t ← pt? t; let dest ← pt? dest
+      let sd := stateDict t
+      pure (.list [sdSx sd, match loadSD sd dest with | some r => ptSx r | none => Sexp.atom "none"])
+  -- (c11.todict tree) -> (plain dict, from_dict(dict, batch_size / names / device of the root))
+  | "c11.todict", [t] => do
+      let t ← pt? t
+      match t with
+      | .node b n d _ _ => pure (.list [pdSx (toDict t), ptSx (fromDict b n d (toDict t))])
+      | .leaf _ => none
   -- (c11.lazyfrom ((key v)…)) -> members in stack order, or none
   | "c11.lazyfrom", [.list d] => do
       let d ← d.mapM fun p => match p with
